@@ -135,4 +135,101 @@ theorem zip_map_map {α β γ} (l : List α) (f : α → β) (g : α → γ) :
 theorem sameSet_refl (a : List CX) : sameSet a a = true := by
   simp [sameSet, subset, List.all_eq_true]
 
+def truthOf (sc : List String) (r : List Cell) (c : CX) : Bool := c.eval sc r == some 1
+
+theorem truthWith_truthOf (sc : List String) (r : List Cell) (x : CX) :
+    truthWith (truthOf sc r) x = truthOf sc r x := by
+  induction x with
+  | col n => simp [truthWith]
+  | const c => simp [truthWith]
+  | not a ih =>
+    simp only [truthWith, ih, truthOf, CX.eval, notC, b2c]
+    cases h : (a.eval sc r == some 1) <;> simp
+  | bin op a b iha ihb =>
+    cases op <;> try (simp [truthWith]; done)
+    · simp only [truthWith, iha, ihb, truthOf, CX.eval, BinOp.app, b2c]
+      cases h1 : (a.eval sc r == some 1) <;> cases h2 : (b.eval sc r == some 1) <;> simp
+    · simp only [truthWith, iha, ihb, truthOf, CX.eval, BinOp.app, b2c]
+      cases h1 : (a.eval sc r == some 1) <;> cases h2 : (b.eval sc r == some 1) <;> simp
+
+theorem truthWith_congr (σ τ : CX → Bool) (x : CX) (h : ∀ c ∈ atoms x, σ c = τ c) : truthWith σ x = truthWith τ x := by
+  induction x with
+  | col n => simp only [truthWith]; exact h _ (by simp [atoms])
+  | const c => simp only [truthWith]; exact h _ (by simp [atoms])
+  | not a ih => simp only [truthWith]; rw [ih (fun c hc => h c (by simpa [atoms] using hc))]
+  | bin op a b iha ihb =>
+    cases op
+    case and =>
+      simp only [truthWith]
+      rw [iha (fun c hc => h c (by simp [atoms, hc])), ihb (fun c hc => h c (by simp [atoms, hc]))]
+    case or =>
+      simp only [truthWith]
+      rw [iha (fun c hc => h c (by simp [atoms, hc])), ihb (fun c hc => h c (by simp [atoms, hc]))]
+    all_goals (simp only [truthWith]; exact h _ (by simp [atoms]))
+
+theorem assign_map (as : List CX) (τ : CX → Bool) (c : CX) (hc : c ∈ as) : assign as (as.map τ) c = τ c := by
+  induction as with
+  | nil => simp at hc
+  | cons a as' ih =>
+    simp only [List.map_cons, assign]
+    by_cases h : (a == c) = true
+    · have : a = c := by simpa using h
+      simp [h, this]
+    · simp only [h, Bool.false_eq_true, if_false]
+      have : c ∈ as' := by
+        rcases List.mem_cons.mp hc with h1 | h1
+        · exfalso; apply h; simp [h1]
+        · exact h1
+      exact ih this
+
+theorem mem_allBools (bs : List Bool) : bs ∈ allBools bs.length := by
+  induction bs with
+  | nil => simp [allBools]
+  | cons b bs ih =>
+    simp only [List.length_cons, allBools, List.mem_flatMap]
+    refine ⟨bs, ih, ?_⟩
+    cases b <;> simp
+
+/-- truth-table equivalent filter lists select the same rows -/
+theorem ttEquiv_sound (sc : List String) (r : List Cell) (fl fl' : List CX) (h : ttEquiv fl fl' = true) :
+    fl.all (fun c => c.eval sc r == some 1) = fl'.all (fun c => c.eval sc r == some 1) := by
+  unfold ttEquiv at h
+  simp only [List.all_eq_true] at h
+  have hlen : ((fl ++ fl').flatMap atoms).length = (((fl ++ fl').flatMap atoms).map (truthOf sc r)).length := by simp
+  have hmem : ((fl ++ fl').flatMap atoms).map (truthOf sc r) ∈ allBools ((fl ++ fl').flatMap atoms).length := by
+    rw [hlen]; exact mem_allBools _
+  have hb := h _ hmem
+  simp only [beq_iff_eq] at hb
+  have key : ∀ x ∈ fl ++ fl', truthWith (assign ((fl ++ fl').flatMap atoms) (((fl ++ fl').flatMap atoms).map (truthOf sc r))) x
+      = truthOf sc r x := by
+    intro x hx
+    rw [← truthWith_truthOf sc r x]
+    apply truthWith_congr
+    intro c hc
+    apply assign_map
+    simp only [List.mem_flatMap]
+    exact ⟨x, hx, hc⟩
+  have allc : ∀ (l : List CX) (f g : CX → Bool), (∀ x ∈ l, f x = g x) → l.all f = l.all g := by
+    intro l f g hfg
+    induction l with
+    | nil => rfl
+    | cons y ys ih =>
+      simp only [List.all_cons]
+      rw [hfg y (by simp), ih (fun x hx => hfg x (by simp [hx]))]
+  rw [allc fl _ (truthOf sc r) (fun x hx => key x (by simp [hx])),
+      allc fl' _ (truthOf sc r) (fun x hx => key x (by simp [hx]))] at hb
+  exact hb
+
+theorem keep_filtEquiv (s : Src) (a b : List CX) (h : filtEquiv a b = true) : keep s a = keep s b := by
+  unfold filtEquiv at h
+  cases hs : sameSet a b with
+  | true => exact keep_sameSet s a b hs
+  | false =>
+    simp only [hs, Bool.false_or] at h
+    unfold keep
+    apply List.filter_congr
+    intro ir _
+    exact ttEquiv_sound s.cols ir.2 a b h
+
+
 end Dask.RelExpr
